@@ -442,7 +442,7 @@ fn run_real(script: &str, dir: &Path, valgrind: bool) -> Result<Obs, String> {
         tree,
     })
     .map(|o| {
-        if valgrind && o.status == "exit:99" {
+        if valgrind && o.status == "exit:99" && String::from_utf8_lossy(&stderr).lines().any(|l| l.starts_with("==")) {
             Obs {
                 stdout: format!("VALGRIND REPORT\n{}", String::from_utf8_lossy(&stderr)),
                 ..o
@@ -572,9 +572,25 @@ pub fn run(ctx: &Ctx) {
         |i| {
             let mut rng = Rng::new(seed.wrapping_mul(0xC19).wrapping_add(i as u64));
             let (script, features) = gen_script(&mut rng);
-            let dir = base.join(format!("verif-c19-{pid}-{i}"));
-            let valgrind = have_valgrind && i < nvalgrind;
-            let real = match run_real(&script, &dir, valgrind) {
+            // two levels, so that `cd ..` from the working directory is still inside our own scratch area
+            let outer = base.join(format!("verif-c19-{pid}-{i}"));
+            let dir = outer.join("w");
+            if have_valgrind && i < nvalgrind {
+                // memcheck verdict only: valgrind changes descriptor limits and prints its own warnings,
+                // so this run is not part of the differential comparison
+                match run_real(&script, &dir, true) {
+                    Ok(o) => {
+                        ctx.count("real_runs_under_valgrind", 1);
+                        if o.stdout.starts_with("VALGRIND REPORT") {
+                            ctx.violation("valgrind:memcheck", format!("valgrind memcheck reported an error in the real-system run\nscript:\n{script}\n{}", o.stdout));
+                        }
+                    }
+                    Err(_) => {
+                        ctx.count("valgrind_runs_inconclusive", 1);
+                    }
+                }
+            }
+            let real = match run_real(&script, &dir, false) {
                 Ok(o) => o,
                 Err(e) => {
                     ctx.inconclusive.fetch_add(1, std::sync::atomic::Ordering::Relaxed);
@@ -582,17 +598,11 @@ pub fn run(ctx: &Ctx) {
                     if std::env::var_os("C19_DEBUG").is_some() {
                         eprintln!("C19INCONCLUSIVE #{i}: {e}\n{script}=====");
                     }
-                    let _ = std::fs::remove_dir_all(&dir);
+                    let _ = std::fs::remove_dir_all(&outer);
                     return;
                 }
             };
-            if valgrind {
-                ctx.count("real_runs_under_valgrind", 1);
-                if real.stdout.starts_with("VALGRIND REPORT") {
-                    ctx.violation("valgrind:memcheck", format!("valgrind memcheck reported an error in the real-system run\nscript:\n{script}\n{}", real.stdout));
-                    return;
-                }
-            }
+            let _ = std::fs::remove_dir_all(&outer);
             let (virt, verr) = run_virtual(&script, &dir);
             ctx.eval();
             for f in &features {
